@@ -2298,8 +2298,12 @@ static iwrc _jbl_node_from_binn_impl(
       }
       break;
     default: {
-      rc = _jbl_create_node(ctx, bn, parent, key, klidx, 0, clone_strings);
+      struct jbl_node *n;
+      rc = _jbl_create_node(ctx, bn, parent, key, klidx, &n, clone_strings);
       RCRET(rc);
+      if (!ctx->root) { // A document consisting of a single scalar value
+        ctx->root = n;
+      }
       break;
     }
   }
